@@ -344,3 +344,118 @@ Example C02_writer_ex_misuse :
   run_writer true [WOpen KArray [97; 105]; WOpen KArray [120]; WClose; WClose] = None /\
   run_writer true [WOpen KVariant [105]; WBasic (VNum 105 1); WBasic (VNum 105 2); WClose] = None.
 Proof. vm_compute. repeat split; reflexivity. Qed.
+(* ==== C02, writer part 2: append this to Props/C02.v (after the first writer snippet; no new Require needed) ==========
+   The remaining entry points named by the property: dbus_message_iter_append_fixed_array, dbus_message_append_args
+   (dbus_message_append_args_valist), and what dbus_message_iter_abandon_container leaves behind. *)
+
+(* dbus_message_iter_append_fixed_array -> _dbus_type_writer_write_fixed_multi -> _dbus_marshal_write_fixed_multi is the
+   writer operation [WFixedMulti c elems] (alignment once, the caller's n*size bytes copied in HOST order, then
+   _dbus_swap_array over the copied region if the message is in the other order).
+   The block marshaller at the end of the body, for every host order and every message order: the padding, then the
+   elements in the MESSAGE's order -- so the host order does not matter *)
+Theorem C02_writer_fixed_multi_marshal : forall host le body sz ns, (sz = 2 \/ sz = 4 \/ sz = 8) ->
+  marshal_fixed_multi host le body (nlen body) sz ns =
+  Some (body ++ zeros (pad_amount (nlen body) sz) ++ flat_map (fun n => bytes_of le (N.to_nat sz) n) ns,
+        nlen body + pad_amount (nlen body) sz + nlen ns * sz).
+Proof. exact marshal_fixed_multi_end. Qed.
+Print Assumptions C02_writer_fixed_multi_marshal.
+
+(* ONE WFixedMulti in the sub-writer of an open array of fixed element type [c] (every fixed type: y b n q i u x t d;
+   booleans are 4 bytes; descriptors are excluded by the API), for every number of elements incl. 0, inside ANY stack
+   [rest] of open containers, in both byte orders: the same final state as the elements appended one by one by
+   dbus_message_iter_append_basic, namely the body extended by the elements' specification encoding *)
+Theorem C02_writer_fixed_multi_as_basics : forall le c sz vs sf body sigstr w rest depth,
+  fixed_size c = Some sz -> c <> 104 ->
+  active (mkS body sigstr) w [c] -> w_ct w = 97 -> w_vpos w = nlen body -> pad_amount (nlen body) sz = 0 ->
+  wfsb le vs depth (nlen body) = true -> forallb (fun x => ty_eqb (ty_of_val x) (TBasic c)) vs = true ->
+  nlen (encs le vs (nlen body)) <= max_array ->
+  run_ops [WFixedMulti c vs] (mkWS le (mkS body sigstr) sf (w :: rest)) =
+  run_ops (map WBasic vs) (mkWS le (mkS body sigstr) sf (w :: rest)) /\
+  run_ops (map WBasic vs) (mkWS le (mkS body sigstr) sf (w :: rest)) =
+  Some (mkWS le (mkS (body ++ encs le vs (nlen body)) sigstr) sf (post_w w (w_tpos w) (nlen (body ++ encs le vs (nlen body))) :: rest)).
+Proof. exact fixed_multi_as_basics. Qed.
+Print Assumptions C02_writer_fixed_multi_as_basics.
+
+(* open_container, ONE append_fixed_array, close_container = the array value (same statement as C02_writer_value_anywhere,
+   for this call sequence instead of [ops_of_val]): through the idle top-level iterator or any ready one, at any position *)
+Theorem C02_writer_fixed_array : forall le c sz vs sf body sigstr w rest depth tail,
+  fixed_size c = Some sz -> c <> 104 ->
+  head_ok sf (mkS body sigstr) w (print_ty (TArray (TBasic c))) tail ->
+  w_vpos w = nlen body -> wfb le depth (nlen body) (VArr (TBasic c) vs) = true -> tygood (TArray (TBasic c)) = true ->
+  run_ops [WOpen KArray [c]; WFixedMulti c vs; WClose] (mkWS le (mkS body sigstr) sf (w :: rest)) =
+  Some (post_state le sf body sigstr w rest (print_ty (TArray (TBasic c))) (tpos_after w (VArr (TBasic c) vs))
+                   (body ++ enc le (VArr (TBasic c) vs) (nlen body))).
+Proof. intros le c sz vs sf body sigstr w rest depth tail Hsz Hc. exact (fixed_array_written le c sz vs Hsz Hc sf body sigstr w rest depth tail). Qed.
+Print Assumptions C02_writer_fixed_array.
+
+(* dbus_message_append_args_valist: [ops_of_args] is the loop's call sequence on its one append iterator (basic ->
+   append_basic; array of a fixed type other than 'h' -> open, ONE append_fixed_array (also for n = 0), close; array of
+   s/o/g -> open, append_basic per string, close; anything else -> open, abandon, stop).  For supported arguments it
+   produces exactly what the iterator API produces for the same values, i.e. the specification encoding *)
+Theorem C02_writer_append_args : forall le args, forallb arg_supported args = true ->
+  wfsb le (map val_of_arg args) 0 0 = true -> forallb tygood (map ty_of_val (map val_of_arg args)) = true ->
+  nlen (flat_map print_ty (map ty_of_val (map val_of_arg args))) <= 255 ->
+  run_writer le (ops_of_args args) = Some (encs le (map val_of_arg args) 0, flat_map print_ty (map ty_of_val (map val_of_arg args))) /\
+  run_writer le (ops_of_args args) = run_writer le (ops_of_vals (map val_of_arg args)).
+Proof. exact writer_append_args. Qed.
+Print Assumptions C02_writer_append_args.
+
+(* ... and so does one dbus_message_append_args call PER argument (each with its own dbus_message_iter_init_append),
+   also when the message already has a body *)
+Theorem C02_writer_append_args_calls : forall le args body sg, forallb arg_supported args = true ->
+  wfsb le (map val_of_arg args) 0 (nlen body) = true -> forallb tygood (map ty_of_val (map val_of_arg args)) = true ->
+  nlen (sg ++ flat_map print_ty (map ty_of_val (map val_of_arg args))) <= 255 ->
+  run_calls le body sg (map (fun a => ops_of_args [a]) args) =
+  Some (body ++ encs le (map val_of_arg args) (nlen body), sg ++ flat_map print_ty (map ty_of_val (map val_of_arg args))).
+Proof. exact writer_append_args_calls. Qed.
+Print Assumptions C02_writer_append_args_calls.
+
+(* dbus_message_iter_abandon_container (a theorem about what the code does, not a finding: the API documents the message
+   as unusable afterwards).  The step drops the signature reference and nothing else: body bytes and SIGNATURE field are
+   untouched, the parent's value_pos is NOT brought up to date *)
+Theorem C02_writer_abandon_step : forall le m sf sub real rest st',
+  writer_step (mkWS le m sf (sub :: real :: rest)) WAbandon = Some st' ->
+  s_bodystr (ws_strs st') = s_bodystr m /\ ws_sigfield st' = sf /\
+  exists r1, ws_iters st' = r1 :: rest /\ w_vpos r1 = w_vpos real /\ w_ct r1 = w_ct real.
+Proof. exact abandon_step. Qed.
+Print Assumptions C02_writer_abandon_step.
+
+(* so a top-level array abandoned after its elements is left HALF-WRITTEN in the body: padding, a length word that still
+   says 0, the element padding and all element bytes stay, and the signature does not mention the array *)
+Theorem C02_writer_abandon_array : forall le et vs body0 sg0 depth, tygood et = true -> wfb le depth (nlen body0) (VArr et vs) = true ->
+  run_writer_from le body0 sg0 (WOpen KArray (print_ty et) :: flat_map ops_of_val vs ++ [WAbandon]) =
+  Some (body0 ++ zeros (pad_amount (nlen body0) 4) ++ bytes_of le 4 0 ++
+        zeros (pad_amount (nlen body0 + pad_amount (nlen body0) 4 + 4) (spec_align et)) ++ encs le vs (arr_start (nlen body0) et), sg0).
+Proof. exact writer_abandon_array. Qed.
+Print Assumptions C02_writer_abandon_array.
+
+(* non-vacuity / boundary examples by computation: all 9 fixed types x n in {0,1,3} x both byte orders after one byte;
+   300 elements; big-endian bytes of a block; misuse (outside an array, wrong element type, boolean 2, descriptors,
+   strings) is None; append_args incl. the unsupported-array path (open, abandon, stop: 4 stray bytes, no signature);
+   the stale value_pos after an abandon *)
+Example C02_writer_ex_fixed_multi :
+  forallb (fun le => forallb (fun c => forallb (fun ns =>
+     wchk_ops le (WBasic (VNum 121 1) :: fxops c ns ++ [WBasic (VNum 121 2)]) [VNum 121 1; fx c ns; VNum 121 2])
+     [[]; [1]; [0; 1; 1]]) [121; 98; 110; 113; 105; 117; 120; 116; 100]) [true; false] = true.
+Proof. vm_compute. reflexivity. Qed.
+Example C02_writer_ex_fixed_multi_be : run_writer false (fxops 113 [258; 3]) = Some ([0;0;0;4; 1;2; 0;3], [97; 113]).
+Proof. vm_compute. reflexivity. Qed.
+Example C02_writer_ex_fixed_multi_misuse :
+  run_writer true [WFixedMulti 105 [VNum 105 1]] = None /\
+  run_writer true [WOpen KArray [120]; WFixedMulti 105 [VNum 105 1]; WClose] = None /\
+  run_writer true [WOpen KArray [98]; WFixedMulti 98 [VNum 98 2]; WClose] = None /\
+  run_writer true [WOpen KArray [104]; WFixedMulti 104 [VNum 104 0]; WClose] = None.
+Proof. vm_compute. repeat split; reflexivity. Qed.
+Example C02_writer_ex_append_args :
+  forallb arg_supported wex_args = true /\ wchk true (map val_of_arg wex_args) = true /\
+  wchk_ops true (ops_of_args wex_args) (map val_of_arg wex_args) = true /\ wchk_ops false (ops_of_args wex_args) (map val_of_arg wex_args) = true /\
+  run_calls true [] [] (map (fun a => ops_of_args [a]) wex_args) = run_writer true (ops_of_vals (map val_of_arg wex_args)).
+Proof. vm_compute. repeat split; reflexivity. Qed.
+Example C02_writer_ex_append_args_unsupported :
+  ops_of_args [ABasic (VNum 121 1); AArray 118 []; ABasic (VNum 121 2)] = [WBasic (VNum 121 1); WOpen KArray [118]; WAbandon] /\
+  run_writer true (ops_of_args [ABasic (VNum 121 1); AArray 118 []; ABasic (VNum 121 2)]) = Some ([1; 0;0;0; 0;0;0;0], [121]).
+Proof. vm_compute. split; reflexivity. Qed.
+Example C02_writer_ex_abandon_then_append :
+  run_writer true [WOpen KArray [120]; WBasic (VNum 120 5); WAbandon; WBasic (VNum 121 7)]
+  = Some ([7; 0;0;0;0; 0;0;0;0; 5;0;0;0;0;0;0;0], [121]).
+Proof. vm_compute. reflexivity. Qed.
